@@ -198,8 +198,10 @@ pub fn main_batch_child() {
     batch_child_main(&|item: &Value| {
         let api = item["api"].as_str().unwrap_or("");
         let data = item_bytes(item);
+        crate::track::reset();
         let (outcome, ret) = run_one(api, &data);
-        println!("{}", json!({"ev": "end", "outcome": outcome, "ret": ret}));
+        let maxalloc = crate::track::max_request();
+        println!("{}", json!({"ev": "end", "outcome": outcome, "ret": ret, "maxalloc": limbs(maxalloc)}));
     });
 }
 
@@ -434,6 +436,44 @@ fn deep_nest(rounds: usize) -> Vec<u8> {
     m
 }
 
+pub const INFLATED_LENS: &[(&str, u64)] = &[
+    ("2^31", 1 << 31),
+    ("2^32", 1 << 32),
+    ("2^40", 1 << 40),
+    ("2^62", 1 << 62),
+    ("2^63+8", (1 << 63) + 8),
+    ("2^64-1", u64::MAX),
+];
+
+fn inflated_inputs(quick: bool) -> Vec<Input> {
+    let mut out = Vec::new();
+    for (name, items) in base_docs() {
+        let all = sites(&items);
+        for (i, site) in all.iter().enumerate() {
+            // fields whose content the decoder stores (and could pre-size)
+            let sized = matches!(site.kind, "packed" | "bytes" | "string" | "msg");
+            for (lname, l) in INFLATED_LENS {
+                if quick {
+                    let core = *lname == "2^40" || *lname == "2^63+8";
+                    let edge = *lname == "2^32" || *lname == "2^64-1";
+                    let full_doc = name == "identity" || name == "tensors";
+                    let pick = (core && (full_doc || site.kind == "packed" || site.kind == "bytes"))
+                        || (edge && (site.kind == "packed" || site.kind == "bytes"));
+                    if !pick {
+                        continue;
+                    }
+                } else if !sized && *lname != "2^40" && *lname != "2^63+8" {
+                    continue;
+                }
+                if let Some((bytes, s)) = crate::pb::encode_inflated(&items, i, *l) {
+                    out.push(Input { gen_name: format!("inflate:{name}"), lenclass: format!("chain:{lname}"), bytes, site: Some(s), blackbox_only: false });
+                }
+            }
+        }
+    }
+    out
+}
+
 /// `v` encoded as a varint of exactly `w` bytes (padded with continuation bytes).
 fn wide_varint(v: u64, w: usize) -> Vec<u8> {
     let mut b = Vec::new();
@@ -484,7 +524,7 @@ fn straddle_inputs(quick: bool) -> Vec<Input> {
         ("init.int64_data", &[7, 5, 7]),
         ("attr.t.int64_data", &[7, 1, 5, 5, 7]),
     ];
-    let widths: Vec<usize> = if quick { vec![2, 10] } else { (2..=10).collect() };
+    let widths: Vec<usize> = if quick { vec![2, 10] } else { vec![2, 3, 4, 6, 10] };
     let trailer: &[u8] = &[0xf8, 0x01, 0x01]; // unknown varint field 31 = 1
     let mut out = Vec::new();
     let mut n = 0usize;
@@ -665,6 +705,10 @@ fn gen_inputs(rng: &mut Rng, quick: bool, cands: &[(String, LenExpr)], scale: us
             .collect();
         v.push(Input { gen_name: "random".into(), lenclass: "".into(), bytes: b, site: None, blackbox_only: false });
     }
+    // 5a. consistently inflated chains: one field declares far more bytes than
+    // the input holds and every enclosing message is inflated by the same
+    // amount, so each field still ends inside its parent
+    v.extend(inflated_inputs(quick));
     // 5. varints that straddle the end of an embedded message / packed field
     v.extend(straddle_inputs(quick));
     // 6. deep nesting (black-box only)
@@ -733,13 +777,14 @@ fn job_records(api: &str, r: &ItemResult) -> Vec<String> {
             }
         }
     }
+    let maxalloc = end.as_ref().map(|e| e["maxalloc"].clone()).filter(|v| v.is_array()).unwrap_or(json!([]));
     let (outcome, ret) = match (r.status, &end) {
         ("done", Some(e)) => (e["outcome"].as_str().unwrap_or("err").to_string(), e["ret"].as_str().unwrap_or("").to_string()),
         ("timeout", _) => ("timeout".to_string(), String::new()),
         ("signal", _) => ("abort".to_string(), format!("signal {}", r.code)),
         (_, _) => ("panic".to_string(), sanitize(&format!("exit {} {}", r.code, r.stderr))),
     };
-    recs.push(json!({"ev": "end", "api": api, "outcome": outcome, "nops": nops, "ret": ret}).to_string());
+    recs.push(json!({"ev": "end", "api": api, "outcome": outcome, "nops": nops, "ret": ret, "maxalloc": maxalloc}).to_string());
     recs
 }
 
